@@ -1092,7 +1092,9 @@ impl OeWorld {
             }
             OeOp::Migrate { who, stored } => {
                 if let Some((n, v)) = stored {
-                    crate::w_migrate::set_cw2(&mut self.app, &self.minter, n, v);
+                    let n = if n == "@own" { self.own_cw2.0.clone() } else { n.clone() };
+                    let v = if v == "@own" { self.own_cw2.1.clone() } else { v.clone() };
+                    crate::w_migrate::set_cw2(&mut self.app, &self.minter, &n, &v);
                 }
                 let (name, version) = crate::w_migrate::get_cw2(&self.app, &self.minter);
                 let now = chain::now(&self.app);
@@ -1642,5 +1644,19 @@ pub fn uri_shape_ok(u: &str) -> bool {
                 && scheme.chars().all(|c| c.is_ascii_alphanumeric() || c == '+' || c == '-' || c == '.')
         }
         None => false,
+    }
+}
+
+/// insert migrations into a generated open-edition history (see w_sale::sprinkle_migrates)
+pub fn sprinkle_oe_migrates(rng: &mut Rng, ops: &mut Vec<OeOp>, permille: u64) {
+    let pool = crate::w_sale::migrate_version_pool();
+    let mut i = 0;
+    while i <= ops.len() {
+        if rng.below(1000) < permille {
+            let (who, stored) = crate::w_sale::gen_migrate_args(rng, &pool);
+            ops.insert(i, OeOp::Migrate { who, stored });
+            i += 1;
+        }
+        i += 1;
     }
 }
